@@ -31,6 +31,7 @@ func runC11(c *Check, tier string) {
 	// the root package has one spelling in labels
 	ruleRootPackageCanonical(c, "R11i", 3)
 	ruleR11j(c)
+	ruleR11k(c)
 }
 
 func isNoReturnCall(in ssa.Instruction) bool {
@@ -62,32 +63,82 @@ func ruleR11a(c *Check) {
 			}
 		}
 	}
+	// A validator may be called by the builder itself or by a helper the builder was split into. It "passed"
+	// at a call site when every successful return of the enclosing function is reached through that site and,
+	// from it, only through its success edge; a helper is then itself a validator of its callers.
+	region := regionOf(c, build)
+	var passedAt func(f *ssa.Function, call ssa.CallInstruction, depth int) bool
+	passedAt = func(f *ssa.Function, call ssa.CallInstruction, depth int) bool {
+		var okEdge func(b *ssa.BasicBlock, i int) bool
+		if engine.ErrResultIndex(call.Common().Signature()) >= 0 {
+			okEdge = engine.NilErrEdgesOf(call)
+		} else {
+			// (cycle, found bool): success only on the !found edge
+			okEdge = engine.CutEdgesWhere(atomFromCall("false", 1, call))
+		}
+		succ := successReturn
+		if engine.ErrResultIndex(f.Signature) < 0 {
+			return false
+		}
+		r1, _ := nilReturnReachable(f, engine.PathQuery{CutInstr: engine.IsInstr(call), Shallow: true}, 0)
+		r2, _ := engine.PathExists(f, call, succ, engine.PathQuery{CutEdge: okEdge, Shallow: true})
+		if r1 || r2 {
+			return false
+		}
+		if f == build {
+			return true
+		}
+		if depth > 2 {
+			return false
+		}
+		callers := 0
+		for _, cs := range c.G.CallersOf(f) {
+			if !region[cs.Parent()] {
+				continue
+			}
+			callers++
+			if !passedAt(cs.Parent(), cs, depth+1) {
+				return false
+			}
+		}
+		return callers > 0
+	}
 	for what, callee := range map[string]*ssa.Function{"cycle-search": findCycle, "conflict-detection": conflicts} {
 		key := "graph-validated/" + what + "/" + bname
 		if callee == nil {
 			c.Bad("R11a", key, "the graph builder does not run the "+what, c.P.Pos(build.Pos()))
 			continue
 		}
-		calls := callsToFn(c, build, callee)
+		var calls []ssa.CallInstruction
+		for f := range region {
+			if f != callee {
+				calls = append(calls, callsToFn(c, f, callee)...)
+			}
+		}
+		sort.Slice(calls, func(i, j int) bool { return calls[i].Pos() < calls[j].Pos() })
 		if len(calls) == 0 {
 			c.Bad("R11a", key, "the graph builder does not run the "+what, c.P.Pos(build.Pos()))
 			continue
 		}
-		call := calls[0]
-		r1, _ := engine.PathExists(build, nil, successReturn, engine.PathQuery{CutInstr: engine.IsInstr(call)})
-		var r2 bool
-		if engine.ErrResultIndex(callee.Signature) >= 0 {
-			r2, _ = engine.PathExists(build, call, successReturn, engine.PathQuery{CutEdge: engine.NilErrEdgesOf(call)})
-		} else {
-			// (cycle, found bool): success only on the !found edge
-			r2, _ = engine.PathExists(build, call, successReturn, engine.PathQuery{CutEdge: engine.CutEdgesWhere(atomFromCall("false", 1, call))})
+		ok := false
+		for _, call := range calls {
+			if passedAt(call.Parent(), call, 0) {
+				ok = true
+			}
 		}
-		c.Require(!r1 && !r2, "R11a", key, "a graph is returned only after the "+what+" ran and found nothing", "the graph builder can return a graph without the "+what+" having passed: an invalid graph would be executed", c.P.InstrPos(call))
+		c.Require(ok, "R11a", key, "a graph is returned only after the "+what+" ran and found nothing", "the graph builder can return a graph without the "+what+" having passed: an invalid graph would be executed", c.P.InstrPos(calls[0]))
 	}
 	// unknown dependency: a nil node from the map lookup must lead to an error before AddEdge
+	top := build
 	addEdge := c.P.Func("dag", "DirectedTargetGraph", "AddEdge")
 	if addEdge != nil {
-		for _, ae := range callsToFn(c, build, addEdge) {
+		var edgeCalls []ssa.CallInstruction
+		for f := range region {
+			edgeCalls = append(edgeCalls, callsToFn(c, f, addEdge)...)
+		}
+		sort.Slice(edgeCalls, func(i, j int) bool { return edgeCalls[i].Pos() < edgeCalls[j].Pos() })
+		for _, ae := range edgeCalls {
+			build := ae.Parent() // the builder itself or the helper that adds the edges
 			dep := ae.Common().Args[1]
 			reach, _ := engine.PathExists(build, nil, engine.IsInstr(ae), engine.PathQuery{CutEdge: engine.CutEdgesWhere(func(a engine.Atom) bool {
 				if a.Op != "nonnil" && !(a.Op == "true") {
@@ -104,6 +155,16 @@ func ruleR11a(c *Check) {
 				return sameVar(a.V, dep) || a.V == dep
 			})})
 			r2, _ := engine.PathExists(build, ae, successReturn, engine.PathQuery{CutEdge: engine.NilErrEdgesOf(ae)})
+			if !r2 && build != top {
+				// the helper's error has to stop the builder
+				stops := false
+				for _, cs := range c.G.CallersOf(build) {
+					if region[cs.Parent()] && passedAt(cs.Parent(), cs, 0) {
+						stops = true
+					}
+				}
+				r2 = !stops
+			}
 			c.Require(!reach && !r2, "R11a", "unknown-dependency-rejected/"+bname, "an edge is added only for a dependency found in the node map, and AddEdge's error (self-loop, unknown node) is returned", "a dependency on an undefined label (nil node) or a self-loop can slip into the graph", c.P.InstrPos(ae))
 		}
 	}
@@ -809,7 +870,7 @@ func cleanPathValue(v ssa.Value, depth int) (bool, string) {
 // decided on strings (map key, prefix test); two spellings of one path (./x and x, a//b and a/b, dist/ and
 // dist) are one location for the targets that write them.
 func ruleR11j(c *Check) {
-	c.Rule("R11j", "every path the conflict detector records for comparison (string fields of its record type) is the result of filepath.Clean / filepath.Join, directly or through a helper all of whose returns are: two spellings of one location compare equal", 2)
+	c.Rule("R11j", "every path the conflict detector records for comparison (string fields of its record type) is the result of filepath.Clean / filepath.Join, directly or through a helper all of whose returns are: two spellings of one location compare equal", 1)
 	var det *ssa.Function
 	if bg := c.P.Func("analysis", "", "BuildGraph"); bg != nil {
 		for _, s := range engine.SitesIn(bg) {
@@ -905,4 +966,39 @@ func comparedField(c *Check, region map[*ssa.Function]bool, key engine.FieldKey)
 		}
 	}
 	return false
+}
+
+// R11k: the package-escape test sees what the user declared. Glob patterns are resolved against the package
+// directory (io/fs does not allow ".."), so a pattern that points outside the package matches nothing and never
+// shows up in the resolved input list; the test has to look at the declared patterns as well.
+func ruleR11k(c *Check) {
+	c.Rule("R11k", "the input constraint check reads both the resolved inputs (Target.Inputs) and the declared patterns (Target.UnresolvedInputs), and each flows into the escape predicate", 2)
+	ctc := c.P.Func("analysis", "", "CheckTargetConstraints")
+	if ctc == nil {
+		c.Unknown("R11k", "anchor/analysis.CheckTargetConstraints", "anchor-unresolved", "-")
+		return
+	}
+	reach := c.G.ReachableFuncs([]*ssa.Function{ctc}, func(f *ssa.Function) bool { return !engine.InPackage(f, "analysis") })
+	// the escape predicate: a bool function of one string in the analysis package that the check reaches
+	var preds []*ssa.Function
+	for f := range reach {
+		sig := f.Signature
+		if engine.InPackage(f, "analysis") && sig.Params().Len() == 1 && isStringType(sig.Params().At(0).Type()) && sig.Results().Len() == 1 && sig.Results().At(0).Type().String() == "bool" {
+			preds = append(preds, f)
+		}
+	}
+	if len(preds) == 0 {
+		c.Unknown("R11k", "escape-predicate", "no string -> bool predicate reachable from the constraint check", "-")
+		return
+	}
+	var sinks []Node
+	for _, p := range preds {
+		sinks = append(sinks, p.Params[0])
+	}
+	back := c.G.Backward(sinks, func(e *engine.Edge) bool {
+		return e.Via == nil || reach[e.Via.Parent()] || reach[engine.TopFunc(e.Via.Parent())]
+	})
+	for _, f := range []string{"Inputs", "UnresolvedInputs"} {
+		c.Require(back.Has(fk("model.Target", f)), "R11k", "escape-check-covers/"+f, "Target."+f+" flows into the escape predicate", "Target."+f+" never reaches the escape predicate: "+map[string]string{"Inputs": "a literal input that points outside the package is accepted", "UnresolvedInputs": "an input glob that points outside the package (../lib/*.txt) resolves to nothing, is invisible in the resolved list and is accepted"}[f], c.P.Pos(ctc.Pos()))
+	}
 }
